@@ -37,6 +37,8 @@ def verify(pid, mn, src="/tmp/seedout"):
         base_demo = sh(f"cd {wt} && {PY} {demo}", env=env)
         ap = sh(f"git -C {wt} apply {patch}")
         if ap.returncode != 0:
+            ap = sh(f"git -C {wt} apply --3way {patch}")
+        if ap.returncode != 0 or "conflict" in (ap.stdout + ap.stderr).lower():
             print("patch does not apply:", ap.stderr); return False
         files = sh(f"git -C {wt} diff --stat").stdout
         s = suite(wt)
@@ -73,7 +75,10 @@ def try_seed(name, checks):
         checks = [meta["property"]]
     assert sh("git -C /repo status --porcelain").stdout.strip() == "", "/repo not clean"
     ap = sh(f"git -C /repo apply {d}/patch.diff")
-    assert ap.returncode == 0, ap.stderr
+    if ap.returncode != 0:   # the tree has moved on (fix: commits): 3-way merge against the base blobs
+        ap = sh(f"git -C /repo apply --3way {d}/patch.diff")
+        meta["applied_with"] = "git apply --3way (fix: commits touched the same file)"
+    assert ap.returncode == 0 and "conflict" not in (ap.stdout + ap.stderr).lower(), ap.stderr
     try:
         for c in checks:
             t0 = time.time()
@@ -87,7 +92,7 @@ def try_seed(name, checks):
             if p.returncode == 2:
                 print(p.stderr[-1500:])
     finally:
-        sh("git -C /repo checkout -- .")
+        sh("git -C /repo reset -q --hard HEAD")
         # evidence files were rewritten from a patched tree: restore the committed ones
         sh(f"git -C {VERIF} checkout -- evidence")
         shutil.rmtree(os.path.join(VERIF, "replays"), ignore_errors=True)
